@@ -31,7 +31,7 @@ META = {
 GEN = ['seawater']
 MODULES = ['TamocV.Props.C07', 'TamocV.Gen.SeawaterPy', 'TamocV.Model.Profile']
 RULE = ('profiles of 3-500 levels, 0-6 extra variables, recognised unit systems, built as array / xarray / netCDF file / open netCDF dataset / world-ocean default / array stored bottom-first; '
-        'history of 0-7 operations (the first scenarios cycle through every source form and every operation) drawn from append (new or existing variable, own depth grid partly outside the range, unit conversion), extend_profile_deeper (N given or computed), '
+        'history of 0-7 operations (the first scenarios cycle through every source form (err=0, no stabilisation: the stored table must equal, by name, the harness own unit-converted table / its own reading of the world-ocean data file; otherwise a sub-sequence of it with first and last row) and every operation) drawn from append (new or existing variable, own depth grid partly outside the range, unit conversion), extend_profile_deeper (N given or computed), '
         'insert_density (with and without P0), insert_potential_density, insert_buoyancy_frequency; after every operation queries at stored depths, interior points '
         '(incl. next-to-node), points outside the range, as float / list / ndarray and as int / list of ints / integer ndarray / 0, with name lists: all names, shuffled subsets with unknown names, single name, empty list; '
         '2-3 name lists per history, fixed at the start and containing names later operations add (ua/va/wa, planned chemicals, density, theta, N) and unknown names, are queried before the first and after EVERY operation against the independent interpolation of the table as stored then; a case is non-trivial when (source, levels, columns, operation history) is new')
@@ -536,22 +536,45 @@ SOURCES = ['array', 'xarray', 'ncfile', 'ncdataset', 'world', 'array-bottom-firs
 OPS = ['append', 'extend', 'insert_density', 'insert_density_P0', 'insert_potential_density', 'insert_buoyancy_frequency']
 
 
-def build_scenario(ctx, rng, workdir, force=None):
+def world_ocean_table(Ts=290.41, Ss=34.89):
+    """the harness's OWN reading of tamoc/data/world_ocean_ave_ctd.dat and of the documented scaling (Sarmiento & Gruber
+    world-ocean average: z, T [deg C], S, O2, O2_sat [umol/kg -> kg/m^3 with 31.9988 g/mol]; temperature capped at the surface
+    value, salinity scaled to the surface value) + its own hydrostatic pressure.  Columns z, T, S, P, oxygen, oxygen_sat."""
+    import common
+    raw = np.loadtxt(os.path.join(common.REPO, 'tamoc', 'data', 'world_ocean_ave_ctd.dat'), comments='%')
+    z = raw[:, 0]
+    T = np.minimum(raw[:, 1] + 273.15, Ts + 273.15)
+    S = raw[:, 2] * (Ss / raw[0, 2])
+    P = sp.hydrostatic(z, T, S)
+    return np.column_stack([z, T, S, P, raw[:, 3] * 31.9988 / 1.e6, raw[:, 4] * 31.9988 / 1.e6]), \
+        ['z', 'temperature', 'salinity', 'pressure', 'oxygen', 'oxygen_sat']
+
+
+def build_scenario(ctx, rng, workdir, force=None, exact=False):
+    """returns (built profile, origin, (expected table, names, exact?)): the expected table is the HARNESS's own statement of
+    what the profile must hold — the cast it handed over, converted to standard units by the harness — never read back
+    from the object"""
     from tamoc import ambient
     u = rng.random()
     kind = force or ('world' if u < 0.08 else 'array-bottom-first' if u < 0.14 else None)
+    err = 0.0 if exact else rng.choice([0.0, 0.0, 0.01, 10 ** rng.uniform(-4, -0.3)])
+    stab = False if exact else rng.random() < 0.6
     if kind == 'world':
         which = rng.choice(['none', 'surface'])
+        werr = 0.0 if exact else rng.choice([0.0, 0.01])
         with quiet():
             if which == 'none':
                 p = ambient.Profile(None, chem_names=['oxygen', 'oxygen_sat'], chem_units=['kg/m^3', 'kg/m^3'],
-                                    err=rng.choice([0.0, 0.01]))
+                                    err=werr, stabilize_profile=stab)
+                tabw, namesw = world_ocean_table()
             else:
-                p = ambient.Profile(np.array([0.0, rng.uniform(5.0, 25.0), rng.uniform(33.0, 36.0)]))
-        return sp.Built(p, 'world', []), {'source': 'world-ocean:' + which}
+                Ts, Ss = rng.uniform(5.0, 25.0), rng.uniform(33.0, 36.0)
+                p = ambient.Profile(np.array([0.0, Ts, Ss]), err=werr, stabilize_profile=stab)
+                tabw, namesw = world_ocean_table(Ts, Ss)
+                tabw, namesw = tabw[:, :4], namesw[:4]
+        return sp.Built(p, 'world', []), {'source': 'world-ocean:' + which, 'err': werr, 'stabilize_profile': stab}, \
+            (tabw, namesw, werr == 0.0 and not stab)
     cast = sp.make_cast(rng, 3, 500, with_pressure=True if kind else None)
-    err = rng.choice([0.0, 0.0, 0.01, 10 ** rng.uniform(-4, -0.3)])
-    stab = rng.random() < 0.6
     if kind == 'array-bottom-first':
         # the same table stored from the deepest level up (an up-cast); pressure supplied
         data, names, units = sp.cast_table(cast)
@@ -559,12 +582,60 @@ def build_scenario(ctx, rng, workdir, force=None):
         with quiet():
             p = ambient.Profile(np.array(data[::-1]), chem_names=list(chem_names), err=err, ztsp_units=list(units[:4]),
                                 chem_units=list(chem_units), stabilize_profile=False)
+        std, snames, _u = sp.standard_table(cast)
         return sp.Built(p, 'array-bottom-first', []), {'source': 'array-bottom-first', 'err': err, 'stabilize_profile': False,
-                                                       'cast': cast['meta']}
+                                                       'cast': cast['meta']}, (std[::-1], snames, err == 0.0)
     route = kind or rng.choice(sp.routes_for(cast))
     with quiet():
         built = sp.build_profile(cast, route, workdir, err=err, stabilize=stab)
-    return built, {'source': route, 'err': err, 'stabilize_profile': stab, 'cast': cast['meta']}
+    std, snames, _u = sp.standard_table(cast, dataset_order=(route != 'array'))
+    if cast['P'] is None:
+        # the profile must integrate the pressure itself: the harness's own hydrostatic column
+        std = np.column_stack([std, sp.hydrostatic(cast['z'], cast['T'], cast['S'])])
+        snames = snames + ['pressure']
+    return built, {'source': route, 'err': err, 'stabilize_profile': stab, 'cast': cast['meta']}, (std, snames, err == 0.0 and not stab)
+
+
+def check_construct(ctx, snap, expected, origin):
+    """the table the profile holds after construction against the harness's own table, BY NAME"""
+    want, wnames, exact = expected
+    src = origin['source'].split(':')[0]
+    ctx.count('pred:construct-table' + ('-exact' if exact else '-thinned'))
+    ctx.evaluations += int(want.shape[0])
+    case = {'history': [dict(origin, op='construct')], 'expected_names': wnames[1:], 'stored_names': snap['names'],
+            'expected_first_row': want[0].tolist(), 'expected_levels': int(want.shape[0]), 'stored_levels': int(snap['table'].shape[0])}
+    missing = [nm for nm in wnames[1:] if nm not in snap['names']]
+    extra = [nm for nm in snap['names'] if nm not in wnames[1:]]
+    if missing or extra:
+        ctx.violation('construct-names-differ:' + src, 'the constructed profile does not hold exactly the variables it was given',
+                      dict(case, missing=missing, unexpected=extra))
+        return
+    got = snap['table'][:, [0] + [1 + snap['names'].index(nm) for nm in wnames[1:]]]
+    if exact:
+        # err = 0, stabilisation off: every row, bit for bit (pressure integrated by the code: 1e-11)
+        if not (same_table(got, want) or close_table(got, want)):
+            bad = np.argwhere(~np.isclose(got, want, rtol=1e-11, atol=0, equal_nan=True))[:3] if got.shape == want.shape else []
+            ctx.violation('construct-table-differs:' + src, 'the constructed profile (err=0, no stabilisation) does not hold the table it was given '
+                          '(converted to standard units), compared by variable name',
+                          dict(case, differs_at=[[int(i), wnames[int(j)]] for i, j in bad],
+                               stored=[float(got[tuple(k)]) for k in bad], expected=[float(want[tuple(k)]) for k in bad],
+                               stored_first_row=got[0].tolist()))
+        return
+    # thinned (err > 0) and / or stabilised: a sub-sequence of the given rows that keeps the first and the last one
+    j, idx = 0, []
+    for r in got:
+        while j < want.shape[0] and not (same_table(want[j], r) or close_table(want[j:j + 1], r[None, :])):
+            j += 1
+        if j >= want.shape[0]:
+            idx = None
+            break
+        idx.append(j)
+        j += 1
+    if idx is None:
+        ctx.violation('construct-row-not-given:' + src, 'a stored row of the constructed profile is not a row of the table it was given, '
+                      'compared by variable name', dict(case, stored_first_row=got[0].tolist()))
+    elif not idx or idx[0] != 0 or idx[-1] != want.shape[0] - 1:
+        ctx.violation('construct-first-last:' + src, 'the constructed profile does not keep the first / last given row', case)
 
 
 def run(ctx, lean_ok):
@@ -590,9 +661,9 @@ def _run(ctx, lean_ok, workdir):
     with rec:
         for si in range(nscen):
             rng = random.Random(ctx.rng.getrandbits(60))
-            force_src = SOURCES[si] if si < len(SOURCES) else None
+            force_src = SOURCES[si % len(SOURCES)] if si < 2 * len(SOURCES) else None
             try:
-                built, origin = build_scenario(ctx, rng, workdir, force_src)
+                built, origin, expected = build_scenario(ctx, rng, workdir, force_src, exact=(si < 2 * len(SOURCES)))
             except Exception as e:
                 ctx.count('construct-raised:%s' % type(e).__name__)
                 ctx.violation('construct-raised:%s:%s' % (force_src or 'random', type(e).__name__),
@@ -604,6 +675,7 @@ def _run(ctx, lean_ok, workdir):
             ctx.count('source:' + src)
             history = [dict(origin, op='construct')]
             snap = snapshot(p)
+            check_construct(ctx, snap, expected, origin)
             ctx.count('levels:%s' % ('3-9' if snap['table'].shape[0] < 10 else '10-99' if snap['table'].shape[0] < 100 else '100-500'))
             query_state(ctx, rng, p, snap, list(history), 'construct', batch_lines, batch_pending)
             # names later operations of THIS history will add, and the name lists that are asked again after every operation
@@ -707,7 +779,7 @@ def _run(ctx, lean_ok, workdir):
     floors += [('pred:node', 2000), ('pred:between', 2000), ('pred:clamp', 1000), ('pred:unknown-zero', 1000),
                ('pred:batch-eq-single', 1000), ('pred:short-batch', 300), ('pred:integer-depth', 300),
                ('pred:cache-fresh', 80), ('pred:z-range', 80)]
-    floors += [('pred:persistent-list', 200), ('pred:late-known-name-answered', 200),
+    floors += [('pred:construct-table-exact', 12), ('pred:construct-table-thinned', 8), ('pred:persistent-list', 200), ('pred:late-known-name-answered', 200),
                ('history:name-unknown-at-first-query-known-later', int(math.ceil(0.3 * h.get('history', 0))))]
     low = [(k, h.get(k, 0), f) for k, f in floors if h.get(k, 0) < f]
     ctx.oblige('coverage floors: every source form, every operation (completed >= 3 times) and every predicate exercised (%d counters)' % len(floors),
